@@ -125,19 +125,20 @@ pub fn variance_of_constructors_rev() {
 
 /// union: upper bound of its members (whatever the insertion order, also when a member is a
 /// supertype of a later one), least such: A|B <= C  <=>  A <= C and B <= C; `|=` agrees with `|`
-const S_JOIN: [Ty; 6] = [T_INT, T_ARR_INT, T_ARR_ANY, T_U_INT_FLOAT, T_ANY, T_NEVER];
+const S_JOIN_A: [Ty; 4] = [T_INT, T_ARR_INT, T_ARR_ANY, T_NEVER];
+const S_JOIN_B: [Ty; 4] = [T_U_INT_FLOAT, T_FLOAT, T_ANY, T_ARR_INT];
 macro_rules! union_laws {
-    ($name:ident, $policy:expr) => {
+    ($name:ident, $set:expr, $policy:expr) => {
         #[kani::proof]
-        #[kani::unwind(10)]
+        #[kani::unwind(8)]
         #[kani::stub(alloc::fmt::format, crate::verif_common::stub_format)]
         pub fn $name() {
             set_order($policy);
-            let ts: [Type; 6] = core::array::from_fn(|i| real(S_JOIN[i]));
+            let ts: [Type; 4] = core::array::from_fn(|i| real($set[i]));
             let mut i = 0;
-            while i < 6 {
+            while i < 4 {
                 let mut j = 0;
-                while j < 6 {
+                while j < 4 {
                     let u = ts[i].clone() | ts[j].clone();
                     assert!(ts[i].matches(&u) && ts[j].matches(&u));
                     let mut v = ts[i].clone();
@@ -146,7 +147,7 @@ macro_rules! union_laws {
                     let w = ts[j].clone() | ts[i].clone();
                     assert!(equiv(&u, &w)); // commutative up to equivalence
                     let mut k = 0;
-                    while k < 6 {
+                    while k < 4 {
                         let both = ts[i].matches(&ts[k]) && ts[j].matches(&ts[k]);
                         assert!(u.matches(&ts[k]) == both);
                         k += 1;
@@ -161,28 +162,30 @@ macro_rules! union_laws {
         }
     };
 }
-union_laws!(union_laws_o0, 0);
-union_laws!(union_laws_o1, 1);
+union_laws!(union_laws_a_o0, S_JOIN_A, 0);
+union_laws!(union_laws_a_o1, S_JOIN_A, 1);
+union_laws!(union_laws_b_o0, S_JOIN_B, 0);
+union_laws!(union_laws_b_o1, S_JOIN_B, 1);
 
 /// three-member unions whose earlier member is a supertype of a later one, every member stays below
+fn keeps_members(policy: u8) {
+    set_order(policy);
+    let u1 = real(T_U_FLOAT_ARRANY_ARRINT);
+    assert!(real(T_FLOAT).matches(&u1) && real(T_ARR_ANY).matches(&u1) && real(T_ARR_INT).matches(&u1));
+    let u2 = real(T_U_INT_ARRU_ARRINT);
+    assert!(real(T_INT).matches(&u2) && real(T_ARR_U_INT_FLOAT).matches(&u2) && real(T_ARR_INT).matches(&u2));
+    let u3 = real_rev(T_U_INT_ARRU_ARRINT);
+    assert!(real(T_INT).matches(&u3) && real(T_ARR_U_INT_FLOAT).matches(&u3) && real(T_ARR_INT).matches(&u3));
+    assert!(equiv(&u2, &u3));
+}
 #[kani::proof]
 #[kani::unwind(6)]
 #[kani::stub(alloc::fmt::format, crate::verif_common::stub_format)]
-pub fn union_keeps_every_member() {
-    let mut p = 0u8;
-    while p < 2 {
-        set_order(p);
-        let u1 = real(T_U_FLOAT_ARRANY_ARRINT);
-        assert!(real(T_FLOAT).matches(&u1) && real(T_ARR_ANY).matches(&u1) && real(T_ARR_INT).matches(&u1));
-        let u2 = real(T_U_INT_ARRU_ARRINT);
-        assert!(real(T_INT).matches(&u2) && real(T_ARR_U_INT_FLOAT).matches(&u2) && real(T_ARR_INT).matches(&u2));
-        let u3 = real_rev(T_U_INT_ARRU_ARRINT);
-        assert!(real(T_INT).matches(&u3) && real(T_ARR_U_INT_FLOAT).matches(&u3) && real(T_ARR_INT).matches(&u3));
-        assert!(equiv(&u2, &u3));
-        p += 1;
-    }
-    kani::cover!(true);
-}
+pub fn union_keeps_every_member_o0() { keeps_members(0); kani::cover!(true); }
+#[kani::proof]
+#[kani::unwind(6)]
+#[kani::stub(alloc::fmt::format, crate::verif_common::stub_format)]
+pub fn union_keeps_every_member_o1() { keeps_members(1); kani::cover!(true); }
 
 /// meet: conjoin(A, B) is a lower bound of A and of B
 const S_MEET: [Ty; 10] = [T_INT, T_ANY, T_U_INT_FLOAT, T_U_INT_STR, T_ARR_INT, T_ARR_U_INT_FLOAT, T_MUT_U_INT_FLOAT, T_MUT_U_INT_STR, T_FUN_U_INT, T_FUN_INT_U];
